@@ -1325,8 +1325,11 @@ class HTMLTemplateCompiler (TemplateCompiler, FixedHTMLParser.HTMLParser):
 			if (attValue is None):
 				if (att == self.tal_namespace_omittag):
 					atts.append ((att, ""))
-				else:
+				elif ('%s:%s' % (tag.upper(), att.upper()) in HTML_BOOLEAN_ATTS):
 					atts.append ((att, att))
+				else:
+					# Not a boolean attribute: <img alt> means alt=""
+					atts.append ((att, ""))
 			elif not HTML_ENTITIES_PRE_EXPANDED:
 				# Expand any SGML entity references or char references
 				goodAttValue = []
